@@ -154,6 +154,45 @@ def u_ovr_refit(h, labels):
     h.observe('x', last[0][0][0])
 
 
+def u_svc_warm_refit(h, labels1, labels2):
+    """LinearSVC(warm_start=True) fitted, then refitted on data whose two classes are LABELLED differently (so that their order
+    in classes_ changes) and on other rows: the dual start handed to the solver is the previous dual solution and the
+    model-fit buffer handed with it is (y * X)^T @ dual for the CURRENT data and labels"""
+    import skglm
+    n, p = 3, 2
+    X1, X2 = h.mat('XA', n, p), h.mat('XB', n, p)
+    C = h.real('C')
+    h.assume(C > 0)
+    est = skglm.LinearSVC(C=C, fit_intercept=False, warm_start=True)
+    rets = []
+
+    def result(k, call):
+        r = ES.sym_result(h, n, tag='d%d_' % k)
+        rets.append(r)
+        return r
+    with ES.sklearn_stubs(h):
+        with ES.intercept_solve(h, result) as cap:
+            est.fit(X1, np.array(labels1))
+            est.fit(X2, np.array(labels2))
+    h.ensure('two-solves', len(cap.calls) == 2)
+    if len(cap.calls) < 2:
+        return
+    c2 = cap.calls[1]
+    w2, Xw2 = c2['w_init'], c2['Xw_init']
+    prev = rets[0][0]
+    h.observe('x', prev[0])
+    ok = h.true()
+    for i in range(n):
+        ok = h.and_(ok, h.eq(w2[i], prev[i]))
+    h.ensure('dual-start-is-the-previous-dual-solution', ok)
+    cls = sorted(set(labels2))
+    ys = [1.0 if l == cls[1] else -1.0 for l in labels2]
+    cons = h.true() if len(Xw2) == p else h.false()
+    for j in range(min(p, len(Xw2))):
+        cons = h.and_(cons, h.eq(Xw2[j], sum(ys[i] * X2[i, j] * w2[i] for i in range(n))))
+    h.ensure('start-model-fit-is-(yX)^T-dual-for-the-current-data', cons)
+
+
 def u_predict_multiclass(h, labels):
     import skglm
     p, m = 2, 1
@@ -199,6 +238,14 @@ def units(tier):
                            dict(labels=labels, fit_intercept=fi), wall_s=120))
     for labels in (['a', 'b', 'c', 'a'], [5, 1, 9]):
         us.append(Unit('C12/E/ovr-warm-refit[labels=%s]' % (labels,), u_ovr_refit, dict(labels=labels), wall_s=120))
+    for l1, l2 in (([3, 7, 3], [30, -7, 30]), (['a', 'b', 'a'], ['a', 'b', 'b'])):
+        us.append(Unit('C12/E/LinearSVC-warm-refit[%s->%s]' % (l1, l2), u_svc_warm_refit, dict(labels1=l1, labels2=l2), wall_s=90))
+    # the loss behind the binary classifiers treats the two classes symmetrically: C06's obligations for the Logistic datafit
+    # (every accessor == derivative of value, sparse == dense) for label vectors of both signs
+    from checks import c06
+    for yc in ((1, -1, 1), (-1, -1, 1)):
+        us.append(Unit('C12/K/Logistic-datafit[y=%s]' % (yc,), c06.u_datafit,
+                       dict(name='Logistic', n=3, p=2, pattern=c06.PATTERNS_32[0], ycombo=yc), wall_s=120))
     for labels in (['a', 'b', 'c'], [5, 1, 9]):
         us.append(Unit('C12/E/predict-multiclass[labels=%s]' % (labels,), u_predict_multiclass, dict(labels=labels), wall_s=120))
     return us
